@@ -238,7 +238,7 @@ def all_masks(ny, d):
             for bits in itertools.product((1, 0), repeat=ny * d)]
 
 
-STYLES = ['A', 'B', 'C', 'D', 'E']
+STYLES = ['A', 'B', 'C', 'D', 'E', 'F', 'G']
 
 
 def gen_specs(tier, seed):
@@ -266,7 +266,7 @@ def _gen_pal(pal, thorough):
                 for orient in (0, 1):
                     for solver in _solvers(cat2[U]['cls'], thorough):
                         yield make(2, fam, pal, U, att=att, okind=okind, orient=orient,
-                                   style=STYLES[(i + orient) % 5], solver=solver,
+                                   style=STYLES[(i + orient) % 7], solver=solver,
                                    attach='list' if (i + orient) % 2 == 0 else 'args')
     # P2: dependency masks x declaration styles
     for U in ('box', 'n1', 'n2', 'seg', 'tri', 'kl') if not thorough else names2:
